@@ -48,6 +48,22 @@ def _impl(tier, seed, search):
         L.close('vex(skew(x)) so(2)', b.vex(b.skew(x)), [x], 1e-12, abs(x), dict(x=x)); L.close('skew(x)', b.skew(x), [[0, -x], [x, 0]], 1e-12, abs(x), dict(x=x))
         S6 = np.r_[a, c]
         L.close('vexa(skewa(S)) se(3)', b.vexa(b.skewa(S6)), S6, 1e-12, max(sa, sc), dict(S=S6))
+        # lists mixing Python ints and floats (the integer part must not decide the type of the result)
+        for nm_, lst_, want_ in (('skewa([f,f,0,0,0,1])', [0.5, -0.25, 0, 0, 0, 1], None), ('skewa([f,f,f,0,0,0])', [0.3, -1.7, 2.25, 0, 0, 0], None), ('skewa([f,f,1])', [0.5, -0.25, 1], None), ('skewa([1,2,f])', [1, 2, 0.5], None),
+                                 ('skewa((f,f,0,0,0,1))', (0.5, -0.25, 0, 0, 0, 1), None), ('skew([0,0,f])', [0, 0, 0.5], None), ('skew([1,f,0])', [1, 0.25, 0], None), ('delta2tr([f,f,0,0,0,0])', [0.001, 0.002, 0, 0, 0, 0], None)):
+            fn_ = getattr(b, nm_.split('(')[0]); ref_ = fn_(np.array(lst_, dtype=float))
+            ok, r = L.noraise(nm_, lambda: np.asarray(fn_(lst_), float), dict(arg=repr(lst_)), nm_, sig='mixed-int-float:raises')
+            if ok: L.close(nm_, r, np.asarray(ref_, float), 1e-15, 1.0, dict(arg=repr(lst_)), what=f'{nm_.split("(")[0]} of a list mixing ints and floats differs from the same values as a float array', sig='mixed-int-float')
+        # the unit-twist predicates against their definition: |w| = 1, or w = 0 and |v| = 1 — nothing else
+        uv_ = a / max(np.linalg.norm(a), 1e-300)
+        for nm_, S_, want_ in (('|v|=1, |w|=2', np.r_[uv_, 2 * c / max(np.linalg.norm(c), 1e-300)], False), ('|v|=1, |w|=0.5', np.r_[uv_, 0.5 * c / max(np.linalg.norm(c), 1e-300)], False), ('|v|=1, w=0', np.r_[uv_, 0, 0, 0], True),
+                               ('|w|=1', np.r_[a, c / max(np.linalg.norm(c), 1e-300)], True), ('|v|=2, w=0', np.r_[2 * uv_, 0, 0, 0], False)):
+            L.check(f'isunittwist[{nm_}]', bool(b.isunittwist(S_)) == want_, dict(S=S_), f'isunittwist is {not want_} for a twist with {nm_}', sig='isunittwist:definition')
+        for nm_, S_, want_ in (('|v|=1, w=2', np.r_[uv_[:2] / max(np.linalg.norm(uv_[:2]), 1e-300), 2.0], False), ('|v|=1, w=0', np.r_[uv_[:2] / max(np.linalg.norm(uv_[:2]), 1e-300), 0.0], True), ('w=-1', np.r_[a[:2], -1.0], True), ('|v|=1, w=0.5', np.r_[uv_[:2] / max(np.linalg.norm(uv_[:2]), 1e-300), 0.5], False)):
+            L.check(f'isunittwist2[{nm_}]', bool(b.isunittwist2(S_)) == want_, dict(S=S_), f'isunittwist2 is {not want_} for a planar twist with {nm_}', sig='isunittwist:definition')
+        if i % 8 == 0:
+            for nm_, call_ in (('trexp([0,0,1,0,0,2], 0.3)', lambda: b.trexp([0, 0, 1, 0, 0, 2], 0.3)), ('trexp2([0.6,0.8,2], 0.3)', lambda: b.trexp2([0.6, 0.8, 2], 0.3))):
+                L.raises('non-unit twist with theta', call_, dict(call=nm_), f'{nm_}: a twist that is not a unit twist must be refused when an angle is given', sig='isunittwist:definition')
         M4 = b.skewa(S6); L.check('skewa-form se(3)', bool(np.all(M4[3, :] == 0) and np.allclose(M4[:3, :3], sk(c)) and np.allclose(M4[:3, 3], a)), dict(S=S6), 'skewa(6-vector) is not [skew(w) v; 0 0]')
         S3 = np.r_[a[:2], x]
         L.close('vexa(skewa(S)) se(2)', b.vexa(b.skewa(S3)), S3, 1e-12, max(sa, abs(x)), dict(S=S3))
